@@ -273,6 +273,20 @@ def corpus_files(prop):
     return [os.path.join(d, n) for n in sorted(os.listdir(d)) if n.endswith(".json")]
 
 
+def _replay_one(modname, tier, seed, scratch, path):
+    """-> None (passed) or (signature, detail)"""
+    mod = importlib.import_module(modname)
+    ctx = Ctx(mod, tier, seed, 0, 1, scratch, 3600)
+    ctx.active_findings = []          # replay decides on its own, nothing is excluded
+    os.makedirs(ctx.scratch, exist_ok=True)
+    with open(path) as f:
+        ent = json.load(f)
+    try:
+        mod.replay(ctx, ent["case"])
+        return None
+    except Violation as v:
+        return (v.signature, str(v.detail))
+
 def run_corpus(mod, tier, seed, scratch):
     """Replay saved regression inputs and the canonical instance of each known finding.
     Returns (lines, violations, n_replayed)."""
@@ -280,19 +294,27 @@ def run_corpus(mod, tier, seed, scratch):
     status = {f["id"]: "finding" for f in known.get("findings", [])}
     what = {f["id"]: f.get("what", "") for f in known.get("findings", [])}
     lines, viols, n = [], [], 0
-    ctx = Ctx(mod, tier, seed, 0, 1, os.path.join(scratch, "corpus"), 3600)
-    ctx.active_findings = []          # replay decides on its own, nothing is excluded
-    os.makedirs(ctx.scratch, exist_ok=True)
-    for path in corpus_files(mod.PROP):
+    files = corpus_files(mod.PROP)
+    results = {}
+    if len(files) > 2:
+        # replays are independent: run them side by side (fresh forked workers, one scratch directory each)
+        import concurrent.futures, multiprocessing
+        with concurrent.futures.ProcessPoolExecutor(max_workers=min(8, len(files)),
+                                                    mp_context=multiprocessing.get_context("fork")) as ex:
+            futs = {path: ex.submit(_replay_one, mod.__name__, tier, seed, os.path.join(scratch, "corpus%d" % i), path)
+                    for i, path in enumerate(files)}
+            for path, fu in futs.items():
+                results[path] = fu.result()
+    else:
+        for i, path in enumerate(files):
+            results[path] = _replay_one(mod.__name__, tier, seed, os.path.join(scratch, "corpus%d" % i), path)
+    for path in files:
         with open(path) as f:
             ent = json.load(f)
         n += 1
         expect = ent.get("expect", "pass")
-        try:
-            mod.replay(ctx, ent["case"])
-            failed = None
-        except Violation as v:
-            failed = v
+        r = results[path]
+        failed = None if r is None else Violation(r[0], r[1], ent["case"])
         if expect.startswith("known:"):
             fid = expect[6:]
             if status.get(fid) == "finding":
